@@ -5,7 +5,7 @@ from .. import env, coq, runner, gates, tables, gates_more
 
 LEVEL = 'proof'
 META = dict(
-    text='Coq theorems, for every exponent and global shift at once (generic commutative ring with i, 1/2, 1/sqrt2 and unit parameters, hence valid over C with r = exp(i pi t/2)): the eigen-decomposition tables regenerated from /repo on every run, summed the way EigenGate._unitary_ sums them, equal the documented closed-form matrix for each of the 53 EigenGate families; a correspondence run compares cirq.unitary of generated gate instances (special and generic parameters, named constants) with the model evaluated inside Coq. Second batch (Gates/MoreSpecs.v, MoreProofs.v), sizes universally quantified: diagonal gates of any length are unitary for unit entries, compose by multiplying phases and commute; BooleanHamiltonianGate is diag(u^(number of true clauses)) and is additive in the angle and in the clause list; ParallelGate(U, n) is the n-fold Kronecker power with (U x n)(V x n) = (UV) x n and adjoint = power of the adjoint, for any n and any sub-gate dimension; ArithmeticGate is the basis permutation x -> apply(x) on big-endian registers (constants, qudits, documented padding/wrapping), an isometry iff apply is injective on the register range, and compositions compose; each of the 24 single-qubit Cliffords conjugates X and Z to its stated images (generic ring, and exactly in Q(zeta_8)); DensePauliString product rule for strings of any length; UniformSuperposition column norm; StatePreparation / Reset(d) / Measurement / RandomGate Kraus families are trace preserving in any dimension. The same models are compared with cirq.unitary / cirq.kraus / cirq.mixture on generated instances.',
+    text='Coq theorems, for every exponent and global shift at once (generic commutative ring with i, 1/2, 1/sqrt2 and unit parameters, hence valid over C with r = exp(i pi t/2)): the eigen-decomposition tables regenerated from /repo on every run, summed the way EigenGate._unitary_ sums them, equal the documented closed-form matrix for each of the 53 EigenGate families; a correspondence run compares cirq.unitary of generated gate instances (special and generic parameters, named constants) with the model evaluated inside Coq. Second batch (Gates/MoreSpecs.v, MoreProofs.v), sizes universally quantified: diagonal gates of any length are unitary for unit entries, compose by multiplying phases and commute; BooleanHamiltonianGate is diag(u^(number of true clauses)) and is additive in the angle and in the clause list; ParallelGate(U, n) is the n-fold Kronecker power with (U x n)(V x n) = (UV) x n and adjoint = power of the adjoint, for any n and any sub-gate dimension; ArithmeticGate is the basis permutation x -> apply(x) on big-endian registers (constants, qudits, documented padding/wrapping), an isometry iff apply is injective on the register range, and compositions compose; each of the 24 single-qubit Cliffords conjugates X and Z to its stated images (generic ring, and exactly in Q(zeta_8)); DensePauliString product rule for strings of any length; UniformSuperposition column norm; StatePreparation / Reset(d) / Measurement / RandomGate Kraus families are trace preserving in any dimension. The same models are compared with cirq.unitary / cirq.kraus / cirq.mixture on generated instances. Every comparison is repeated for gate objects that were first used read-only by every protocol with every handed-out array overwritten by the caller (the object must still mean the same).',
     note='Trusted: Coq kernel; the transcription of the docstring formulas in coq/Gates/GateSpecs.v; vf/tables_gates.py (exact recognition of table entries, fail closed); the float instantiation (PrimFloat, tolerance 1e-9) used only for the comparison; the Python adapters computing cos/sin of the parameters. Non-eigen families are compared with their closed form only (no table to prove against). Second batch: the transcription in coq/Gates/MoreSpecs.v; vf/gates_more.py (the ArithmeticGate subclasses mirror aop_apply; boolean expressions are sent to Cirq as text and to the model as the tree they were printed from); numpy for the unitarity oracle of UniformSuperpositionGate (only its first column is documented).',
     technique='Rocq/Coq proof over regenerated eigen-decomposition tables + vm_compute correspondence against cirq.unitary',
 )
